@@ -64,13 +64,29 @@ func TestProp_NumberDimension(t *testing.T) {
 var urlFrags = []string{"a", "Z", "0", " ", "+", "%", "%2", "%20", "%2B", "%2b", "%zz", "%e2%ad%90", "%E2", "/", "?", "&", "=", "#", "~", "-", "_", ".", "é", "\x00", "\x7f", "\xff", "<", ">", "\"", "'", "%%", "%%41", "%4"}
 
 func TestProp_URL(t *testing.T) {
-	ev.Describe("url", "byte strings of 0-10 fragments (percent sequences valid/invalid/truncated, +, space, reserved and non-ASCII bytes) x both encoding tables x spare capacity; oracle: EncodeURL == per-byte reference (%XX upper-case for flagged bytes), DecodeURL(EncodeURL(b, URLEncodingTable)) == b, DecodeURL(s) == url.QueryUnescape(s) whenever that succeeds, and no byte before the slice or other than the documented in-place region is touched; non-trivial = >= 1 byte that needs escaping or a % in the input")
+	ev.Describe("url", "byte strings of 0-10 fragments (percent sequences valid/invalid/truncated, +, space, reserved and non-ASCII bytes) x both encoding tables and tables of the caller's own (any bytes marked, letters and % included) x spare capacity; oracle: EncodeURL == per-byte reference (%XX upper-case for flagged bytes), DecodeURL(EncodeURL(b, URLEncodingTable)) == b, DecodeURL(s) == url.QueryUnescape(s) whenever that succeeds, and no byte before the slice or other than the documented in-place region is touched; non-trivial = >= 1 byte that needs escaping or a % in the input")
 	ev.Check(t, 40000, func(t *rapid.T) {
 		b := gen.Fragments(t, "frag", urlFrags, 10)
 		useData := rapid.Bool().Draw(t, "dataTable")
 		table := parse.URLEncodingTable
 		if useData {
 			table = parse.DataURIEncodingTable
+		}
+		custom := rapid.IntRange(0, 3).Draw(t, "customTable") == 0
+		if custom {
+			// a table of the caller's own: any set of bytes, letters, digits (also the hexadecimal ones) and % included
+			useData = true // no DecodeURL round trip: it is defined for the standard table
+			for k := rapid.IntRange(1, 6).Draw(t, "nmarks"); k > 0; k-- {
+				// (no decimal digits: an implementation that looks at its own output again, as the library did before
+				// 2fc1837, would not terminate on them, and a check that hangs decides nothing)
+				c := rapid.SampledFrom([]byte("azAZ%EFBCDef +~-/\x00\xff\x80é")).Draw(t, "mark")
+				table[c] = rapid.Bool().Draw(t, "marked")
+			}
+			if rapid.IntRange(0, 3).Draw(t, "alltable") == 0 {
+				for c := range table {
+					table[c] = c < '0' || c > '9'
+				}
+			}
 		}
 		var want []byte
 		esc := 0
@@ -107,7 +123,7 @@ func TestProp_URL(t *testing.T) {
 		if !bytes.Equal(backing2[len(b):], guard) {
 			t.Fatalf("DecodeURL(%q) wrote beyond its argument", b)
 		}
-		ev.Case("url", string(b), esc > 0 || bytes.IndexByte(b, '%') >= 0, fmt.Sprintf("dataTable=%v", useData))
+		ev.Case("url", string(b), esc > 0 || bytes.IndexByte(b, '%') >= 0, fmt.Sprintf("dataTable=%v", useData), fmt.Sprintf("customTable=%v", custom))
 	})
 }
 
@@ -223,13 +239,17 @@ func TestProp_DataURI(t *testing.T) {
 }
 
 func TestProp_DataURIAny(t *testing.T) {
-	frags := []string{"data:", "data", ":", ",", ";", "=", "base64", ";base64", "text/plain", " ", "%", "%41", "%4", "+", "a", "QQ==", "QQ=", "\x00", "é", "=="}
-	ev.Describe("datauri-any", "arbitrary fragment strings around the data: URI syntax; oracle: no panic, result is (mediatype, data, nil) or (nil, nil, ErrBadDataURI / base64 error); inputs without the data: prefix or without a comma give ErrBadDataURI; non-trivial = starts with data:")
+	frags := []string{"data:", "data", ":", ",", ";", "=", "base64", ";base64", "text/plain", " ", "%", "%41", "%4", "+", "a", "QQ==", "QQ=", "\x00", "é", "==",
+		"\"", "\\", "=\"", "\"a;b\"", "a=\"b\\", "\t", "/", "*", "'", "(", "\\\\"}
+	ev.Describe("datauri-any", "arbitrary fragment strings around the data: URI and media type syntax (quotes and backslashes at the end included), DataURI and Mediatype; oracle: no panic (arguments without spare capacity), result is (mediatype, data, nil) or (nil, nil, ErrBadDataURI / base64 error); inputs without the data: prefix or without a comma give ErrBadDataURI; non-trivial = starts with data:")
 	ev.Check(t, 30000, func(t *rapid.T) {
 		b := gen.Fragments(t, "frag", frags, 8)
 		if rapid.IntRange(0, 9).Draw(t, "scheme") < 6 {
 			b = append([]byte("data:"), b...)
 		}
+		// Mediatype on the same bytes, handed over without spare capacity (a read behind the argument panics)
+		exact := append(make([]byte, 0, len(b)), b...)
+		parse.Mediatype(exact[:len(b):len(b)])
 		mt, data, err := parse.DataURI(append([]byte(nil), b...))
 		if err != nil && (mt != nil || data != nil) {
 			t.Fatalf("DataURI(%q) returns data together with error %v", b, err)
@@ -375,7 +395,7 @@ var cssHashes = map[string]css.Hash{"document": css.Document, "font-face": css.F
 var htmlHashes = map[string]html.Hash{"iframe": html.Iframe, "math": html.Math, "plaintext": html.Plaintext, "script": html.Script, "style": html.Style, "svg": html.Svg, "textarea": html.Textarea, "title": html.Title, "xml": html.Xml, "xmp": html.Xmp}
 
 func TestProp_Hash(t *testing.T) {
-	ev.Describe("hash", "every constant of css.Hash and html.Hash (exhaustive, every run) plus generated non-members: members with one byte inserted/deleted/changed/case-flipped, prefixes, concatenations, random short strings; oracle: ToHash(text) == the constant and String() inverts it, anything else maps to 0, Hash(x).String() never panics for arbitrary x; non-trivial = candidate within edit distance 1 of a member")
+	ev.Describe("hash", "every constant of css.Hash and html.Hash (exhaustive, every run) plus generated non-members: members with one byte inserted/deleted/changed/case-flipped, prefixes, members behind vendor prefixes and dashes, concatenations, random short strings; oracle: ToHash(text) == the constant and String() inverts it, anything else maps to 0, Hash(x).String() never panics for arbitrary x; non-trivial = candidate within edit distance 1 of a member")
 	for s, h := range cssHashes {
 		if css.ToHash([]byte(s)) != h || h.String() != s || string(h.Bytes()) != s {
 			t.Fatalf("css.ToHash(%q) = %#x (%q), constant %#x (%q)", s, css.ToHash([]byte(s)), css.ToHash([]byte(s)).String(), h, h.String())
@@ -405,7 +425,15 @@ func TestProp_Hash(t *testing.T) {
 		m := rapid.SampledFrom(members).Draw(t, "member")
 		b := []byte(m)
 		near := true
-		switch rapid.IntRange(0, 6).Draw(t, "mut") {
+		switch rapid.IntRange(0, 7).Draw(t, "mut") {
+		case 7:
+			// a member behind a vendor prefix, a dash or a custom-property prefix, or with such a suffix: not a member
+			pre := rapid.SampledFrom([]string{"-webkit-", "-moz-", "-o-", "-ms-", "--", "-", "-x-y-", "@", "@-webkit-", ":", "x-"}).Draw(t, "affix")
+			if rapid.IntRange(0, 3).Draw(t, "suffix") == 0 {
+				b = append(b, pre...)
+			} else {
+				b = append([]byte(pre), b...)
+			}
 		case 0:
 			i := rapid.IntRange(0, len(b)).Draw(t, "i")
 			b = append(b[:i:i], append([]byte{rapid.Byte().Draw(t, "c")}, b[i:]...)...)
